@@ -84,6 +84,11 @@ def corpus():
         f = os.path.join(t, "properties", p + ".mfront")
         if os.path.exists(f):
             c.append((f, "c", "+fail"))
+    # runs that define preprocessor macros (-D): the flag belongs to the libraries this run describes, and to no other library of the registry
+    for p, i in ((props[1], "cxx"), (props[2], "c")):
+        f = os.path.join(t, "properties", p + ".mfront")
+        if os.path.exists(f):
+            c.append((f, i, "-D", "VSIM_C47_MACRO_%s=2" % i.upper()))
     # a behaviour using @MaterialLaw: its library depends on a second library (MFrontMaterialLaw) registered by the same run
     f = os.path.join(t, "behaviours", "T91ViscoplasticBehaviour.mfront")
     if os.path.exists(f):
@@ -348,8 +353,11 @@ def crash_variant(ctx, h, base, L, k, mode, stats_local):
     if mode.startswith("k") and not killed:
         res["note"] = "fault not reached"
     cur = L
+    # the runs made after the crash use, for every other crash point, options that change what mfront prints but not what it must do
+    # (warnings switched off): a damaged registry is an error, to be reported whatever the settings of the warnings
+    quiet = ("--report-warnings=false",) if k % 2 == 1 else ()
     for fi, j in enumerate(h["follow"]):
-        rc2, out2 = mfront(d, ctx.cps[j])
+        rc2, out2 = mfront(d, tuple(ctx.cps[j]) + quiet)
         if rc2 < 0:
             res["viol"] = ("follow-up-run-crashed", "run after the crash died with signal %d: %s" % (-rc2, out2[-200:]))
             break
@@ -359,8 +367,8 @@ def crash_variant(ctx, h, base, L, k, mode, stats_local):
         reg, st = read_registry(d)
         miss = includes(reg, cur) if reg else ["whole registry (%s)" % st]
         if miss:
-            res["viol"] = ("registered-libraries-lost-after-crash", "crash %s at I/O event %d of run %s left src/targets.lst %s; the next run (%s) exited 0 without reporting it and the registry no longer records: %s" % (
-                {"kb": "before", "ka": "after", "kt": "in the middle of (torn write)", "en": "ENOSPC at", "ei": "EIO at"}[mode], k, ctx.cps[i], res["state"], ctx.cps[j], miss))
+            res["viol"] = ("registered-libraries-lost-after-crash", "crash %s at I/O event %d of run %s left src/targets.lst %s; the next run (%s%s) exited 0 without reporting it and the registry no longer records: %s" % (
+                {"kb": "before", "ka": "after", "kt": "in the middle of (torn write)", "en": "ENOSPC at", "ei": "EIO at"}[mode], k, ctx.cps[i], res["state"], ctx.cps[j], " with " + quiet[0] if quiet else "", miss))
             break
         cur = reg
     shutil.rmtree(d, ignore_errors=True)
